@@ -13,12 +13,27 @@ pub struct SolveRec {
     pub nonground_coinductive: bool,
     pub shown: String,
     pub panic_loc: String,
+    /// (SLG only, hook H4) after the solve the forest holds a complete table whose answer is still conditional on
+    /// delayed subgoals — the observed root-cause condition of finding F11
+    pub stale_delayed_table: bool,
+}
+
+/// F11's root-cause condition, observed through hook H4.
+pub fn slg_stale_table(s: &mut chalk_engine::solve::SLGSolver<I>) -> bool {
+    s.verif_tables().iter().any(|t| t.answers_with_delayed_subgoals > 0 && t.strands == 0)
 }
 
 /// Fresh solver + fresh FaultDb, one `solve`, answer translated to the model's vocabulary.
 pub fn solve_translated(l: &Loaded, choice: SolverChoice, peeled: &Peeled, budget: u64) -> SolveRec {
     let db = FaultDb::new(&*l.program, solver_name(&choice));
     db.budget.set(budget);
+    if let SolverChoice::SLG { max_size, expected_answers } = choice {
+        let mut s = chalk_engine::solve::SLGSolver::<I>::new(max_size, expected_answers);
+        let outcome = solve(&mut s, &db, &peeled.goal);
+        let mut rec = finish(l, peeled, outcome, &db);
+        rec.stale_delayed_table = slg_stale_table(&mut s);
+        return rec;
+    }
     let mut s = choice.into_solver();
     let outcome = solve(&mut *s, &db, &peeled.goal);
     finish(l, peeled, outcome, &db)
@@ -31,7 +46,7 @@ pub fn finish(l: &Loaded, peeled: &Peeled, outcome: Outcome, db: &FaultDb<'_>) -
         Outcome::Answer(a) => translate(&l.program, peeled, a),
         other => Err(other.show()),
     };
-    SolveRec { outcome, ans, calls: db.calls.get(), nonground_coinductive: db.nonground_coinductive.get(), shown, panic_loc }
+    SolveRec { outcome, ans, calls: db.calls.get(), nonground_coinductive: db.nonground_coinductive.get(), shown, panic_loc, stale_delayed_table: false }
 }
 
 pub fn detail(program: &str, goal: &str, solver: &SolverChoice) -> J {
